@@ -32,11 +32,11 @@ TRANSPARENT = {
 }
 
 
-def is_transparent(path, trait=None):
+def is_transparent(path, trait=None, method=None):
     p = strip_generics(path)
     if p in TRANSPARENT:
         return True
-    if trait and trait in TRANSPARENT:
+    if trait and method and (trait + "::" + method) in TRANSPARENT:
         return True
     # impl paths of the listed traits, e.g. `<alloc::vec::Vec<T> as core::ops::deref::Deref>::deref`
     for t in ("core::ops::deref::Deref", "core::ops::deref::DerefMut", "core::convert::AsRef", "core::clone::Clone",
@@ -508,7 +508,7 @@ class Ev:
             return ("call", "<indirect>", tuple(self.call_args(b)), (self.fn.path, b))
         path = f.get("path", f.get("orig"))
         args = tuple(self.call_args(b))
-        if is_transparent(path, f.get("trait")) and args:
+        if is_transparent(path, f.get("trait"), f.get("trait_method")) and args:
             # derived Clone on local types etc. are still "the same value"
             return args[0]
         if f.get("trait") == "core::cmp::PartialEq" and len(args) == 2:
@@ -517,6 +517,10 @@ class Ev:
                 return r
             if args[0][0] == "bytes" and args[1][0] == "bytes":
                 return ("int", int((args[0] == args[1]) == (f.get("trait_method") == "eq")))
+        if len(args) == 1 and strip_generics(path).split("::")[-1] == "len" and not path.startswith("roughenough"):
+            if args[0][0] == "bytes":
+                return ("int", len(args[0][1]))
+            return ("len", args[0])
         if f.get("trait") in ("core::ops::index::Index", "core::ops::index::IndexMut") and len(args) == 2:
             return ("index", args[0], args[1])
         return ("call", path, args, (self.fn.path, b))
@@ -655,7 +659,7 @@ class Ev:
                 if t["k"] == "call" and not t["dst"].get("p"):
                     f = t["fn"]
                     p = f.get("path", "")
-                    if not f.get("indirect") and is_transparent(p, f.get("trait")) and t["args"]:
+                    if not f.get("indirect") and is_transparent(p, f.get("trait"), f.get("trait_method")) and t["args"]:
                         o = t["args"][0]
                         src = o.get("cp") or o.get("mv")
                         if src is not None and not src.get("p"):
